@@ -364,7 +364,8 @@ def run_session(case: dict[str, Any]) -> dict[str, Any]:
 	try:
 		for m, v in (case.get('state') or {}).items():
 			proj.set_variant(m, v, 10**9)
-		sources = {m: [v['src'] for v in vs] for m, vs in case['pool']['variants'].items()}
+		# (variants that drop an import leave their importers without a symbol they use: such states are invalid by construction, not edits)
+		sources = {m: [v['src'] for v in vs if '-import' not in v['note']] for m, vs in case['pool']['variants'].items()}
 		rec = sim_process(proj.sc.root, session_task(case.get('order') or case['pool']['modules'], case['ops'], sources, bool(case.get('in_memory'))), timeout=240)
 		return judge_session(case, rec)
 	finally:
@@ -418,7 +419,7 @@ class C14(Engine):
 			ops = round_trip()
 			for j in range(n):
 				# (picks that land on library modules are skipped by the op itself)
-				ops.append({'op': 'edit-reload', 'pick': (j + 0.5) / n, 'v': 2})
+				ops.append({'op': 'edit-reload', 'pick': (j + 0.5) / n, 'v': -1})
 			ops += round_trip()
 			cases.append({'engine': 'session', 'pool': pool, 'ops': ops, 'in_memory': True})
 		# byte-identical modules in two packages (same file stem, same imports: identical Module.identity): each keeps its own stored symbols
